@@ -116,15 +116,15 @@ def run(ctx, R):
 
 
 def list_walkers(F, R):
-    """try_from_list collects the elements of a list for sort/2, keysort/2, atom_chars/2, ...: it walks cons cells in
-    try_from_inner_list and packed strings in try_from_partial_string. A list may switch between the two spellings at any
-    tail, so each walker must hand over to the other and must classify the remaining tail the same way ([] ends, a
-    variable is an instantiation error, anything else a type error)."""
+    """try_from_list collects the elements of a list for sort/2, keysort/2, atom_chars/2, ...: a list may switch between
+    cons cells and packed strings at any tail. Both entry walkers (try_from_inner_list for a cons cell, try_from_partial_string
+    for a packed string) must continue with ONE tail loop that knows both spellings and classifies what remains the same way
+    ([] ends, a variable is an instantiation error, anything else a type error)."""
     tag = "types::HeapCellValueTag::"
     il = F.find_impl("MachineState", None, "try_from_inner_list")
     ps = F.find_impl("MachineState", None, "try_from_partial_string")
 
-    def summary(fn, other):
+    def summary(fn):
         h = F.hir(fn)
         tags = set()
         for m in matches_in(h["body"], src=None):
@@ -136,14 +136,30 @@ def list_walkers(F, R):
                     if rn.startswith(tag):
                         tags.add(rn[len(tag):])
         calls = {r for _, r, _ in hir_calls(h["body"])}
-        return tags, other in calls, any(c.endswith("::instantiation_error") for c in calls), any(c.endswith("::type_error") for c in calls)
+        return tags, calls
 
-    t_il, il_to_ps, il_inst, il_ty = summary(il, ps)
-    t_ps, ps_to_il, ps_inst, ps_ty = summary(ps, il)
-    R.ob("C20:list-walkers:cons-walker-hands-over-to-string-walker", "PStrLoc" in t_il and il_to_ps, "try_from_inner_list must continue with try_from_partial_string at a packed-string tail", F.where(il))
-    R.ob("C20:list-walkers:string-walker-hands-over-to-cons-walker", "Lis" in t_ps and ps_to_il,
-         "try_from_partial_string must continue with try_from_inner_list when the characters are followed by a cons cell: partial_string(\"ba\", L, T), T = [1,2], sort(L, S) "
-         "raises type_error(list, ..) while the same list of cons cells sorts", F.where(ps))
-    R.ob("C20:list-walkers:same-tail-classification", (il_inst, il_ty) == (ps_inst, ps_ty) == (True, True) and "Atom" in t_il and "Atom" in t_ps,
-         "both walkers must end at [], raise instantiation_error at an unbound tail and type_error(list, _) otherwise; cons walker: inst=%s type=%s, string walker: inst=%s type=%s"
-         % (il_inst, il_ty, ps_inst, ps_ty), F.where(ps))
+    def reach(fn, depth=0, seen=None):
+        """functions of the walker family reachable from fn (within machine_state_impl.rs)"""
+        seen = seen if seen is not None else set()
+        if fn in seen or depth > 3:
+            return seen
+        seen.add(fn)
+        for c in summary(fn)[1]:
+            if c in F.items and F.items[c]["file"] == F.items[fn]["file"] and re.search(r"::try_from_|::push_pstr_chars$", c):
+                reach(c, depth + 1, seen)
+        return seen
+
+    for name, fn in (("cons", il), ("string", ps)):
+        fam = reach(fn)
+        tags = set()
+        inst = ty = False
+        for f in fam:
+            t, calls = summary(f)
+            tags |= t
+            inst = inst or any(c.endswith("::instantiation_error") for c in calls)
+            ty = ty or any(c.endswith("::type_error") for c in calls)
+        R.ob("C20:list-walkers:%s-walker-continues-in-both-spellings" % name, {"Lis", "PStrLoc", "Atom"} <= tags,
+             "starting from a %s cell, try_from_list must be able to continue at a cons-cell tail AND at a packed-string tail (tail dispatch reached: %s): "
+             "partial_string(\"ba\", L, T), T = [1,2], sort(L, S) raised type_error(list, ..) while the same list of cons cells sorts" % (name, sorted(tags)), F.where(fn))
+        R.ob("C20:list-walkers:%s-walker-tail-classification" % name, inst and ty,
+             "the %s walker must raise instantiation_error at an unbound tail and type_error(list, _) at any other non-list tail (inst=%s, type=%s)" % (name, inst, ty), F.where(fn))
